@@ -1184,6 +1184,34 @@ dump(const char *file)
         free(refs);
     }
     printf("X lone-attr-vdatas %d\n", lone_attr_vd);
+    {
+        /* number of vgroups of no reserved class in the file: a vgroup with two parents is one vgroup */
+        int32 vref = -1;
+        int   nuser = 0;
+        while ((vref = Vgetid(d_fid, vref)) != FAIL) {
+            int32  vg = Vattach(d_fid, vref, "r");
+            uint16 cl = 0;
+            char  *cls;
+            if (vg == FAIL)
+                continue;
+            Vgetclassnamelen(vg, &cl);
+            cls = calloc((size_t)cl + 2, 1);
+            Vgetclass(vg, cls);
+            if (!reserved_class(cls)) {
+                uint16 nl2 = 0;
+                char  *nm;
+                Vgetnamelen(vg, &nl2);
+                nm = calloc((size_t)nl2 + 2, 1);
+                Vgetname(vg, nm);
+                if (strcmp(nm, "RIG0.0") != 0)
+                    nuser++;
+                free(nm);
+            }
+            free(cls);
+            Vdetach(vg);
+        }
+        printf("X user-vgroups %d\n", nuser);
+    }
     ANend(d_an);
     Vend(d_fid);
     GRend(d_gr);
